@@ -138,6 +138,11 @@ def evaluate(ctx, b, lib, model_exe, n_pops, per_class):
                 # fixes/C15-3 and C15-4): one stable key whatever the violation class and position
                 key = "detect:violation-in-complex-part"
                 what += " (the violation is in a part of an externally mapped instance)"
+            if kind == "detect" and v.cls.startswith("bad_reference_at_") and "[][]" in v.detail and not rr.died:
+                # one root cause: an aggregate of aggregates is kept as raw text (GenericAggregate / SCLundefined), the
+                # references inside it are never resolved - whatever the element type and nesting depth
+                key = "detect:reference-inside-aggregate-of-aggregates"
+                what += " (the reference stands inside an aggregate of aggregates)"
             ctx.violation(key, what, {"schema": lib.express, "file": text, "class": v.cls, "victim": v.victim,
                                                        "not_claimed": sorted(v.skip_confine), "conforming_file": bases[bi][1]})
         d = compare(v, rr, mr)
@@ -147,6 +152,10 @@ def evaluate(ctx, b, lib, model_exe, n_pops, per_class):
                 continue
             ctx.hist("model", "disagrees")
             stat["model_disagreements"] += 1
+            if os.environ.get("C03_DUMP_DISAGREEMENT"):
+                json.dump({"key": "debug", "replay": {"schema": lib.express, "file": text, "class": v.cls, "victim": v.victim,
+                                                      "not_claimed": sorted(v.skip_confine), "conforming_file": bases[bi][1]}},
+                          open(os.environ["C03_DUMP_DISAGREEMENT"], "w"))
             if not any(n.startswith("correspondence") for n, _ in ctx.broken):
                 ctx.broken.append(("correspondence P21.Reader vs the reader of the schema library (violated files)",
                                    f"{d}; violation {v.key()}; file:\n{text[-3000:]}"))
@@ -176,8 +185,15 @@ def run(ctx):
     ctx.cov["model_cfg"] = R.model_cfg(model_exe)
     W.NUMBER_ELEM_INT = ctx.cov["model_cfg"].get("numberElemReadsNumber") == "1"
     W.DOLLAR_JUNK = ctx.cov["model_cfg"].get("fillerKeepsError") == "1"
+    W.SENTINELS = all(ctx.cov["model_cfg"].get(k) == "1" for k in ("intNullReported", "realNullReported", "numberNullReported"))
     libs = R.build_libs(b, ctx.work, schemas_for(ctx, 3 if quick else 24))
+    # corpus first: the failing inputs of the repaired defects (each is a schema, a conforming file and the violated file)
     cdir = os.path.join(VERIF, "corpus", "C03")
+    if os.path.isdir(cdir):
+        for f in sorted(os.listdir(cdir)):
+            if f.endswith(".json"):
+                ctx.hist("corpus", f)
+                replay_obj(ctx, b, json.load(open(os.path.join(cdir, f))))
     for lib in libs:
         evaluate(ctx, b, lib, model_exe, 8 if quick else 40, 1 if quick else 3)
         if any(n == "generator" for n, _ in ctx.broken):
@@ -192,9 +208,16 @@ def run(ctx):
 
 def replay(ctx, path):
     d = json.load(open(path))
-    r = d.get("replay", d)
     C01.lean_side(ctx, "StepModel.Props.C03")
     b = ctx.build("plain")
+    replay_obj(ctx, b, d)
+
+
+def replay_obj(ctx, b, d):
+    r = d.get("replay", d)
+    if isinstance(r, str):
+        import ast
+        r = ast.literal_eval(r)
     import hashlib
     wd = os.path.join(ctx.work, "replay-" + hashlib.sha1(r["schema"].encode()).hexdigest()[:8])
     os.makedirs(wd, exist_ok=True)
